@@ -291,6 +291,31 @@ theorem C16_condition_row (lab : Text) (rest : List Val) (hc : classify lab = .c
     case anys tv => exact absurd rfl (he tv)
     all_goals rfl
 
+/-- **C16 (CONDITION rows, nested row in expression position).** When the expression entry is itself a `[]any`, it is
+decoded first (`extractConditionValues` calls `marshalDefault` on it and drops that call's error): if it decodes to a
+Stack, or else to a Condition - a nested CONDITION row, to any depth -, the Condition is built by `Cond` around that value;
+if it decodes to neither (empty, no label, a malformed CONDITION row at any depth below), the whole row is "Malformed
+condition". This is what makes `Marshal` rebuild a Condition held as a Condition's expression from the row `Unmarshal`
+writes for it since repair F43. -/
+theorem C16_condition_row_nested (lab : Text) (w o : Val) (tv : List Val) (hc : classify lab = .cond) :
+    (∀ x, (marshalList tv).stk = some x →
+      marshalList [strV lab, w, o, .anys tv] = { cnd := some (cndVal (Cnd.cond {} (wordOf w) (operOf o) x)) }) ∧
+    (∀ x, (marshalList tv).stk = none → (marshalList tv).cnd = some x →
+      marshalList [strV lab, w, o, .anys tv] = { cnd := some (cndVal (Cnd.cond {} (wordOf w) (operOf o) x)) }) ∧
+    ((marshalList tv).stk = none → (marshalList tv).cnd = none →
+      marshalList [strV lab, w, o, .anys tv] = { err := some 1013 }) := by
+  unfold strV
+  rw [marshalList_str, hc]
+  refine ⟨?_, ?_, ?_⟩
+  · intro x hx; simp only [hx]
+  · intro x hs hx; simp only [hs, hx]
+  · intro hs hx; simp only [hs, hx]
+
+/-- a malformed CONDITION row below a well-formed one makes the outer one malformed, at any depth -/
+theorem C16_condition_row_nested_malformed (lab : Text) (w o : Val) (tv : List Val) (hc : classify lab = .cond)
+    (h : marshalList tv = { err := some 1013 }) : marshalList [strV lab, w, o, .anys tv] = { err := some 1013 } :=
+  (C16_condition_row_nested lab w o tv hc).2.2 (by rw [h]) (by rw [h])
+
 /-! ## 4. an initialised receiver gains exactly one element -/
 
 /-- a receiver without read-only, push policy, capacity or no-nesting -/
@@ -408,6 +433,27 @@ recorded on it), not a fault -/
 example : ∃ c, (marshalList [strV "CONDITION".toList, strV "kw".toList, .leaf (.int 7), .leaf (.int 1)]).cnd
     = some (.cnd .native c "kw".toList .none (.leaf (.int 1))) ∧ c.err = some 1002 :=
   ⟨_, by rw [(C16_condition_row "CONDITION".toList _ rfl).2 _ _ _ rfl (fun tv h => by cases h)]; rfl, rfl⟩
+/-- a CONDITION row whose expression is a CONDITION row whose expression is a LIST row: a Condition holding a Condition
+holding a Stack; with a five-field row at the bottom instead, the whole input is malformed -/
+example : ∃ c c', (marshalList [strV "CONDITION".toList, strV "a".toList, .opv (.cmp 1),
+      .anys [strV "condition".toList, strV "b".toList, .opv (.cmp 2), .anys [strV "LIST".toList, .leaf (.int 1)]]]).cnd
+    = some (.cnd .native c "a".toList (.cmp 1) (.cnd .native c' "b".toList (.cmp 2)
+        (.stk .native { kind := Gen.kind_list } [.leaf (.int 1)]))) := by
+  have h3 : marshalList [strV "LIST".toList, .leaf (.int 1)] =
+      { stk := some (.stk .native { kind := Gen.kind_list } [.leaf (.int 1)]) } := by
+    unfold strV
+    rw [marshalList_str, show classify "LIST".toList = .kind Gen.kind_list from rfl]
+    simp [marshalElems]
+  have h2 := (C16_condition_row_nested "condition".toList (strV "b".toList) (.opv (.cmp 2)) _ rfl).1 _ (by rw [h3])
+  have h1 := (C16_condition_row_nested "CONDITION".toList (strV "a".toList) (.opv (.cmp 1)) _ rfl).2.1 _
+    (by rw [h2]) (by rw [h2])
+  rw [h1]
+  exact ⟨_, _, rfl⟩
+example : marshalList [strV "CONDITION".toList, strV "a".toList, .opv (.cmp 1),
+      .anys [strV "condition".toList, strV "b".toList, .opv (.cmp 2), .anys [strV "CONDITION".toList, .nil, .nil, .nil, .nil]]]
+    = { err := some 1013 } :=
+  C16_condition_row_nested_malformed _ _ _ _ rfl (C16_condition_row_nested_malformed _ _ _ _ rfl
+    ((C16_condition_row "CONDITION".toList _ rfl).1 (by decide)))
 /-- mixed case label, a nested row that decodes, one that does not -/
 example : (marshalList [strV "oR".toList, .anys [strV "not".toList], .anys [.nil], .nil]).stk =
     some (.stk .native { kind := Gen.kind_or } [.stk .native { kind := Gen.kind_not } [], .anys [.nil], .nil]) := by
